@@ -123,8 +123,19 @@ def subscriberLifetimes (header : String) (lines : List String) : String :=
     | some k => out ++ s!"monitor[C09]=violation@{k}:subscriber-{sp.a}-alive-without-a-strong-holder "
     | none => out) ""
 
+/-- "terminated subscribers neither block nor fail a publish": no broker operation (publish, subscribe, unsubscribe)
+    of the family ever returns an error - there is one broker per topic, it is a registry service, and it does not
+    depend on its subscribers.  (The model's `bret` carries no result: `C09p_progress` says every begun operation
+    can return; that it returns Ok is read off the trace here.) -/
+def brokerOpFailed (lines : List String) : String :=
+  match lines.findIdx? (fun l => match toks l with
+      | "bret" :: _ :: "err" :: _ => true
+      | _ => false) with
+  | some k => s!"monitor[C09]=violation@{k}:broker-operation-failed:{(lines.getD k "").replace " " "_"} "
+  | none => ""
+
 def processBrk (header : String) (lines : List String) (showWitness : Bool) : String :=
-  (fun out => out ++ subscriberLifetimes header lines) <|
+  (fun out => out ++ subscriberLifetimes header lines ++ brokerOpFailed lines) <|
   [0, 1].foldl (fun out j =>
     let (ls, q, bad) := parseBrk j lines
     let out := if bad.isEmpty then out else out ++ s!"unparsed={bad.length}:{bad.head!} "
